@@ -1421,3 +1421,59 @@ Lemma relisted_parameter_wins_l :
   header_of (relisted_m [relisted_A; relisted_B]) relisted_req = Ok (Some "routing_id=projects/p1/instances/i1") /\
   emit_metadata (relisted_m [relisted_A; relisted_B; relisted_A]) <> emit_metadata (relisted_m [relisted_A; relisted_B]).
 Proof. vm_compute. repeat split; try reflexivity. discriminate. Qed.
+
+(* ================================================================ presence (proto3 optional routing fields)
+   The model reads a request only through attribute values; a proto3 optional field that is PRESENT BUT EMPTY reads as
+   the empty string, exactly as an unset one. The header therefore cannot depend on presence: assigning the empty string
+   to an unset field changes nothing (an emitted guard that tested presence instead of non-emptiness would break the
+   T2 comparison header-at-the-server = header_of on such requests). *)
+
+Lemma map_res_ext : forall (A B : Type) (f g : A -> res B) (l : list A),
+  (forall x, f x = g x) -> map_res f l = map_res g l.
+Proof.
+  intros A B f g l Hfg. induction l as [|x l IH]; [reflexivity|].
+  cbn [map_res]. rewrite Hfg, IH. reflexivity.
+Qed.
+
+Lemma header_ext_l : forall (m : method) (r1 r2 : request),
+  (forall p, r1 p = r2 p) -> header_of m r1 = header_of m r2.
+Proof.
+  intros m r1 r2 Hr. unfold header_of.
+  destruct (emit_metadata m) as [[bs|pairs|]|e]; try reflexivity.
+  - destruct (m_explicit m) as [ps|]; [|reflexivity].
+    destruct (m_client_streaming m); [reflexivity|].
+    rewrite (map_res_ext _ _ (fun p => contribution p (r1 (disambiguated (p_field p))))
+                             (fun p => contribution p (r2 (disambiguated (p_field p)))) ps).
+    + reflexivity.
+    + intro p. rewrite Hr. reflexivity.
+  - rewrite (map_ext (fun ra => (fst ra, r1 (snd ra))) (fun ra => (fst ra, r2 (snd ra)))).
+    + reflexivity.
+    + intro ra. rewrite Hr. reflexivity.
+Qed.
+
+Lemma req_of_present_empty : forall (l : list (string * string)) (a p : string),
+  assoc a l = None -> req_of ((a, EmptyString) :: l) p = req_of l p.
+Proof.
+  intros l a p Ha. unfold req_of. cbn [assoc].
+  destruct (String.eqb p a) eqn:E; [|reflexivity].
+  apply String.eqb_eq in E. subst p. rewrite Ha. reflexivity.
+Qed.
+
+Lemma header_presence_l : forall (m : method) (l : list (string * string)) (a : string),
+  assoc a l = None ->
+  header_of m (req_of ((a, EmptyString) :: l)) = header_of m (req_of l).
+Proof.
+  intros m l a Ha. apply header_ext_l. intro p. apply req_of_present_empty. exact Ha.
+Qed.
+
+Definition presence_m : method :=
+  {| m_explicit := Some [ {| p_field := "name"; p_template := "{routing_id=projects/*}/**" |};
+                          {| p_field := "routing_id"; p_template := "" |} ];
+     m_http := {| h_get := "/v1/{name=projects/*/things/*}"; h_put := ""; h_post := ""; h_delete := ""; h_patch := ""; h_custom_path := "" |};
+     m_client_streaming := false |}.
+
+Lemma presence_witness_l :
+  header_of presence_m (req_of [("routing_id", ""); ("name", "projects/p1/things/t1")]) = Ok (Some "routing_id=projects/p1") /\
+  header_of presence_m (req_of [("name", "projects/p1/things/t1")]) = Ok (Some "routing_id=projects/p1") /\
+  header_of presence_m (req_of [("routing_id", "r 1"); ("name", "projects/p1/things/t1")]) = Ok (Some "routing_id=r+1").
+Proof. vm_compute. repeat split; reflexivity. Qed.
